@@ -16,6 +16,7 @@
 package gomatrixserverlib
 
 import (
+	"encoding/json"
 	"fmt"
 	"strings"
 	"unicode/utf8"
@@ -100,6 +101,20 @@ func checkID(id, kind string, sigil byte) (err error) {
 }
 
 // SplitID splits a matrix ID into a local part and a server name.
+// checkUntrustedEventShape refuses events received from other servers whose
+// "content" is not an object or whose "signatures" are not a map of maps.
+// Redact(), EventID() and Sign() rely on both and panic otherwise.
+func checkUntrustedEventShape(eventJSON []byte) error {
+	var shape struct {
+		Content    map[string]spec.RawJSON           `json:"content"`
+		Signatures map[string]map[KeyID]spec.RawJSON `json:"signatures"`
+	}
+	if err := json.Unmarshal(eventJSON, &shape); err != nil {
+		return fmt.Errorf("gomatrixserverlib: malformed event content or signatures: %w", err)
+	}
+	return nil
+}
+
 func SplitID(sigil byte, id string) (local string, domain spec.ServerName, err error) {
 	// IDs have the format: SIGIL LOCALPART ":" DOMAIN
 	// Split on the first ":" character since the domain can contain ":"
